@@ -230,21 +230,96 @@ def check(chk):
     chk.judge(not bad, 'C47.compress', st[0].ast if st else ho, 'the algorithm named in STARTUP is the one the stored (compressor, decompressor) pair was looked up with, on every path (None <-> no compressor)',
               'on some path STARTUP announces %s while the stored codec pair belongs to %s: the driver then compresses/decompresses (and picks the v5 segment layout) differently from what the server agreed to' % (bad[0][0] if bad else '', bad[0][1] if bad else ''))
     s = src(ho)
-    chk.judge('overlap = set(locally_supported_compressions.keys()) & set(remote_supported_compressions)' in s and "remote_supported_compressions = options_response.options['COMPRESSION']" in s,
-              'C47.compress', ho, 'overlap = locally supported & server supported', 'overlap computation changed')
-    flo = Flow(g, 0, lambda n, c: c)
-    picks = [n for n in g.stmt_nodes() if n.kind == 'stmt' and isinstance(n.ast, ast.Assign) and src(n.ast.targets[0]) == 'compression_type' and not (isinstance(n.ast.value, ast.Constant))]
-    for p in picks:
-        v = src(p.ast.value)
-        if v == 'self.compression':
-            ok = all(fa.knows('self.compression in remote_supported_compressions') is True and fa.knows('isinstance(self.compression, str)') is True for fa, _ in flo.at(p))
-            chk.judge(ok, 'C47.compress', p.ast, 'explicitly requested algorithm used only if the server lists it', 'a requested algorithm the server does not support is announced')
-        elif v == 'k':
-            ok = all(fa.knows('k in overlap') is True for fa, _ in flo.at(p))
-            lp = enclosing(p.ast, ast.For)
-            chk.judge(ok and lp is not None and src(lp.iter) == 'locally_supported_compressions.keys()', 'C47.compress', p.ast, 'automatic choice: first locally supported algorithm that is in the overlap', 'automatic choice can leave the overlap')
+    LOCAL = ('locally_supported_compressions.keys()', 'locally_supported_compressions', 'list(locally_supported_compressions)', 'list(locally_supported_compressions.keys())')
+
+    def _set_arg(e):
+        if isinstance(e, ast.Call) and src(e.func) in ('set', 'frozenset') and len(e.args) == 1:
+            return src(e.args[0])
+        return src(e)
+    ovs = [x for x in body_walk(ho) if isinstance(x, ast.Assign) and src(x.targets[0]) == 'overlap']
+    okov = len(ovs) == 1
+    if okov:
+        v = ovs[0].value
+        if isinstance(v, ast.BinOp) and isinstance(v.op, ast.BitAnd):
+            ops_ = [_set_arg(v.left), _set_arg(v.right)]
+        elif isinstance(v, ast.Call) and isinstance(v.func, ast.Attribute) and v.func.attr == 'intersection' and len(v.args) == 1:
+            ops_ = [_set_arg(v.func.value), _set_arg(v.args[0])]
         else:
-            chk.viol('C47.compress', p.ast, src(p.ast), 'unrecognised source of the compression algorithm')
+            ops_ = []
+        okov = len(ops_) == 2 and 'remote_supported_compressions' in ops_ and any(o in LOCAL for o in ops_)
+    rdefs = [x for x in body_walk(ho) if isinstance(x, ast.Assign) and src(x.targets[0]) == 'remote_supported_compressions']
+    okov = okov and len(rdefs) == 1 and src(rdefs[0].value) == "options_response.options['COMPRESSION']"
+    chk.judge(okov, 'C47.compress', ovs[0] if ovs else ho, 'overlap = locally supported & server supported (the server list is the COMPRESSION option of SUPPORTED)', 'overlap computation changed')
+
+    def _filtered_local(e):
+        """e is a comprehension / generator over the locally supported algorithms, in their order, keeping those in the overlap"""
+        if not isinstance(e, (ast.ListComp, ast.GeneratorExp)) or len(e.generators) != 1:
+            return False
+        gen = e.generators[0]
+        return isinstance(gen.target, ast.Name) and src(e.elt) == gen.target.id and src(gen.iter) in LOCAL and [src(i) for i in gen.ifs] == ['%s in overlap' % gen.target.id]
+
+    def _pick(func, g_, fl_, node, expr, depth=2):
+        """None if the value of expr at node is None, the explicitly requested algorithm under its tests, or the first locally supported algorithm in the overlap;
+        otherwise a text saying what is not recognised"""
+        if isinstance(expr, ast.Constant) and expr.value is None:
+            return None
+        t = src(expr)
+        sts = fl_.at(node)
+        if t == 'self.compression':
+            ok = all(fa.knows('self.compression in remote_supported_compressions') is True and fa.knows('isinstance(self.compression, str)') is True for fa, _ in sts)
+            return None if ok else 'a requested algorithm the server does not list can be announced'
+        if isinstance(expr, ast.Name):
+            lp = enclosing(node.ast, ast.For)
+            if lp is not None and isinstance(lp.target, ast.Name) and lp.target.id == t:
+                if src(lp.iter) not in LOCAL:
+                    return 'automatic choice iterates %s, not the locally supported algorithms in preference order' % src(lp.iter)
+                if not all(fa.knows('%s in overlap' % t) is True for fa, _ in sts):
+                    return 'automatic choice can leave the overlap'
+                # the first match wins: control leaves the loop right after the choice
+                leaves = node.kind == 'return' or all(getattr(x, 'kind', '') != 'for_iter' and not (x.kind == 'stmt' and enclosing(x.ast, ast.For) is lp) or
+                                                      (x.kind == 'stmt' and isinstance(x.ast, ast.Break)) for x, _l in node.succ)
+                return None if leaves else 'the loop goes on after a match: the last common algorithm is chosen, not the preferred one'
+            defs = [x for x in body_walk(func) if isinstance(x, ast.Assign) and len(x.targets) == 1 and src(x.targets[0]) == t]
+            if len(defs) == 1 and depth:
+                dn = sem.node_of(g_, defs[0])
+                return _pick(func, g_, fl_, dn, defs[0].value, depth - 1)
+            return 'value of %s not traced' % t
+        if isinstance(expr, ast.IfExp) and isinstance(expr.orelse, ast.Constant) and expr.orelse.value is None and isinstance(expr.body, ast.Subscript) \
+                and src(expr.body.slice) == '0' and src(expr.body.value) == src(expr.test) and isinstance(expr.test, ast.Name):
+            defs = [x for x in body_walk(func) if isinstance(x, ast.Assign) and len(x.targets) == 1 and src(x.targets[0]) == expr.test.id]
+            if len(defs) == 1 and _filtered_local(defs[0].value):
+                return None
+            return '%s is not the locally supported algorithms filtered by the overlap' % expr.test.id
+        if isinstance(expr, ast.Call) and src(expr.func) == 'next' and len(expr.args) == 2 and isinstance(expr.args[1], ast.Constant) and expr.args[1].value is None \
+                and _filtered_local(expr.args[0]):
+            return None
+        if isinstance(expr, ast.Call) and isinstance(expr.func, ast.Attribute) and src(expr.func.value) == 'self' and depth and not expr.keywords:
+            try:
+                h = m.func('Connection.' + expr.func.attr)
+            except Exception:
+                return 'helper %s not found' % expr.func.attr
+            ps = [a.arg for a in h.args.args][1:]
+            if ps != [src(a) for a in expr.args]:
+                return 'helper %s is called with renamed arguments (%s for %s)' % (h.name, [src(a) for a in expr.args], ps)
+            gh_, fh_ = sem.flow_of(h)
+            rets_ = [n for n in gh_.nodes if n.kind == 'return']
+            if not rets_:
+                return 'helper %s returns nothing' % h.name
+            for r in rets_:
+                why = _pick(h, gh_, fh_, r, r.ast.value if r.ast.value is not None else ast.Constant(value=None), depth - 1)
+                if why:
+                    return '%s: %s' % (h.name, why)
+            return None
+        return 'unrecognised source of the compression algorithm'
+
+    from .. import sem
+    g2, flo = sem.flow_of(ho)
+    picks = [n for n in g2.stmt_nodes() if n.kind == 'stmt' and isinstance(n.ast, ast.Assign) and src(n.ast.targets[0]) == 'compression_type' and not (isinstance(n.ast.value, ast.Constant))]
+    for p in picks:
+        why = _pick(ho, g2, flo, p, p.ast.value)
+        chk.judge(why is None, 'C47.compress', p.ast, 'announced algorithm %s: the requested one if the server lists it, else the first locally supported one in the overlap' % src(p.ast.value)[:60], why or '')
+    if not picks:
+        raise AnalysisError('_handle_options_response: no choice of compression_type found')
     chk.require('C47.compress', 8)
     sm = m.func('Connection._send_startup_message')
     okc = any(isinstance(x, ast.If) and src(x.test) == 'compression' and [src(y) for y in x.body] == ["opts['COMPRESSION'] = compression"] for x in sm.body)
